@@ -269,23 +269,27 @@ Proof.
         -- right. split; [exists v', d'; auto | congruence].
 Qed.
 
-(* setDeadline / setIfAbsent leave the index alone for an untimed entry: fine when the key is new *)
-Lemma Inv_set_deadline s k e :
-  Inv s -> (snd e = 0 -> m_get (member s) k = None) -> Inv (m_set_deadline fl s k e).
+(* setIfAbsent (and setDeadline before 0041) leave the index alone for an untimed entry: fine when the key is new *)
+Lemma Inv_set_deadline_old s k e :
+  Inv s -> (snd e = 0 -> m_get (member s) k = None) -> Inv (m_set_deadline_old fl s k e).
 Proof.
   intros HI Hfresh. destruct e as [v d]; simpl in Hfresh.
   destruct (Z.eqb_spec d 0) as [Hd|Hd].
   - subst d. pose proof (Hfresh eq_refl) as Hn. destruct HI as (Hk & Hv & Hi).
-    unfold m_set_deadline; simpl. split; [|split]; simpl; auto.
+    unfold m_set_deadline_old; simpl. split; [|split]; simpl; auto.
     + now apply ksorted_put.
     + intros sc k'. simpl. rewrite (Hi sc k'). split.
       * intros (v' & d' & H1 & H2 & H3). exists v', d'. rewrite m_get_put.
         destruct (Z.eqb_spec k k'); [congruence|auto].
       * intros (v' & d' & H1 & H2 & H3). rewrite m_get_put in H1.
         destruct (Z.eqb_spec k k'); [inversion H1; congruence|]. exists v', d'; auto.
-  - replace (m_set_deadline fl s k (v, d)) with (m_store fl s k (v, d)); [now apply Inv_store|].
-    unfold m_set_deadline, m_store; simpl. destruct (Z.eqb_spec d 0); [contradiction|reflexivity].
+  - replace (m_set_deadline_old fl s k (v, d)) with (m_store fl s k (v, d)); [now apply Inv_store|].
+    unfold m_set_deadline_old, m_store; simpl. destruct (Z.eqb_spec d 0); [contradiction|reflexivity].
 Qed.
+
+(* setDeadline after 0041 is set's index update *)
+Lemma Inv_set_deadline s k e : Inv s -> Inv (m_set_deadline fl s k e).
+Proof. apply Inv_store. Qed.
 
 Lemma Inv_delete s k : Inv s -> Inv (m_delete s k).
 Proof.
@@ -389,19 +393,10 @@ Proof.
   destruct (expired now d); rewrite IH; reflexivity.
 Qed.
 
-Lemma Inv_load data now : forall s, Inv s -> NoDup (map fst data) ->
-  (forall ke, In ke data -> m_get (member s) (fst ke) = None) -> Inv (load_into fl s data now).
+Lemma Inv_load data now : forall s, Inv s -> Inv (load_into fl s data now).
 Proof.
-  unfold load_into. induction data as [|[k e] t IH]; intros s HI Hnd Hfresh; simpl; auto.
-  inversion Hnd as [|? ? Hnotin Hnd']; subst.
-  destruct (expired now (snd e)).
-  - apply IH; auto. intros ke Hke. apply Hfresh. now right.
-  - apply IH; auto.
-    + apply Inv_set_deadline; auto. intros _. apply (Hfresh (k, e)). now left.
-    + intros ke Hke. unfold m_set_deadline; simpl. rewrite m_get_put.
-      destruct (Z.eqb_spec k (fst ke)) as [He|He].
-      * exfalso. apply Hnotin. rewrite He. now apply in_map.
-      * apply Hfresh. now right.
+  unfold load_into. induction data as [|[k e] t IH]; intros s HI; simpl; auto.
+  destruct (expired now (snd e)); apply IH; auto. now apply Inv_set_deadline.
 Qed.
 
 (* ---------- sweeps (model level) ---------- *)
@@ -439,10 +434,7 @@ Theorem roundtrip s now : Inv s ->
 Proof.
   intros (Hk & _ & _). cbv zeta. split.
   - rewrite member_load. simpl. now rewrite (s_load_sorted now (member s) []).
-  - apply Inv_load; [apply Inv_st0| |intros; reflexivity].
-    clear -Hk. induction Hk as [|a l Hs IH Hf]; simpl; constructor; auto.
-    rewrite Forall_forall in Hf. intros Hin. apply in_map_iff in Hin as (x & Hx1 & Hx2).
-    pose proof (Hf x Hx2) as Hl. unfold klt in Hl. lia.
+  - apply Inv_load. apply Inv_st0.
 Qed.
 End Inv.
 
@@ -457,12 +449,12 @@ Lemma step_refines s m now o : Rel s m -> op_wf o ->
   Rel (fst (mstep fl defttl s now o)) (fst (sstep fl defttl m now o))
   /\ snd (mstep fl defttl s now o) = snd (sstep fl defttl m now o).
 Proof.
-  intros [Hm HI] Hwf. subst m. destruct o as [k v ttl|k v ttl|k v ttl|k|k| | | | |data]; simpl.
+  intros [Hm HI] Hwf. subst m. destruct o as [k v ttl|k v ttl|k v ttl|k|k| | | | |data|data]; simpl.
   - split; auto. split; [reflexivity|now apply Inv_store].
   - unfold m_setifabsent. destruct (m_get (member s) k) eqn:Eg; simpl.
     + split; auto. split; auto.
     + split; auto. split; [reflexivity|].
-      apply (Inv_set_deadline fl s k (v, new_expire defttl now ttl)); auto.
+      apply (Inv_set_deadline_old fl s k (v, new_expire defttl now ttl)); auto.
   - unfold m_replace. destruct (m_get (member s) k) as [[v0 d0]|] eqn:Eg; simpl.
     + destruct (expired now d0); simpl.
       * split; auto. split; [apply member_delete|now apply Inv_delete].
@@ -478,8 +470,8 @@ Proof.
   - split; auto. split; [reflexivity|apply (Inv_st0 fl)].
   - split; auto. split; [now apply member_sweep|now apply Inv_sweep].
   - split; auto. split; auto.
-  - split; auto. split; [apply member_load|]. destruct Hwf as [Hnd _].
-    apply Inv_load; [apply (Inv_st0 fl)|exact Hnd|intros; reflexivity].
+  - split; auto. split; [apply member_load|]. apply Inv_load. apply (Inv_st0 fl).
+  - split; auto. split; [apply member_load|]. now apply Inv_load.
 Qed.
 
 Lemma run_refines tops : forall s m, Rel s m -> ops_wf tops ->
